@@ -179,3 +179,28 @@ Proof.
   intros g Hg. apply in_flat_map in Hg as [o [Ho Hg]]. specialize (H o Ho).
   rewrite forallb_forall in H. apply H. exact Hg.
 Qed.
+
+(* two-level split: by the successors of blocks 0 and 1 *)
+Lemma map_flat_map {A B C} (f : B -> C) (g : A -> list B) (l : list A) :
+  map f (flat_map g l) = flat_map (fun x => map f (g x)) l.
+Proof. induction l as [|x l IH]; [reflexivity|]. cbn. rewrite map_app, IH. reflexivity. Qed.
+
+Definition shard2_of (n : nat) (o0 o1 : list Z) : list (list (list Z)) :=
+  filter closedb (map (fun r => o0 :: o1 :: r) (product n (options (S (S n))))).
+
+Lemma closed_graphs_split2 n :
+  closed_graphs (S (S n)) =
+  flat_map (fun o0 => flat_map (fun o1 => shard2_of n o0 o1) (options (S (S n)))) (options (S (S n))).
+Proof.
+  unfold closed_graphs, shard2_of. cbn [product]. rewrite filter_flat_map. apply flat_map_ext. intros o0.
+  rewrite map_flat_map, filter_flat_map. apply flat_map_ext. intros o1. rewrite map_map. reflexivity.
+Qed.
+
+Lemma all_ok_from_shards2 n :
+  forallb (fun o0 => forallb (fun o1 => forallb pipeline_ok (shard2_of n o0 o1)) (options (S (S n)))) (options (S (S n))) = true ->
+  all_ok (S (S n)) = true.
+Proof.
+  unfold all_ok. rewrite closed_graphs_split2. intros H. rewrite forallb_forall in *.
+  intros g Hg. apply in_flat_map in Hg as [o0 [Ho0 Hg]]. apply in_flat_map in Hg as [o1 [Ho1 Hg]].
+  specialize (H o0 Ho0). rewrite forallb_forall in H. specialize (H o1 Ho1). rewrite forallb_forall in H. apply H. exact Hg.
+Qed.
